@@ -39,6 +39,9 @@ def generate(run_seed, tier):
         rw.shuffle(fams)
         fams = [f for f in fams[: rw.randint(8, len(fams))] if f != "cut"]
         fams += ["project", "assign", "filter", "dedup", "project", "assign", "rename", "merge", "merge_filter", "merge_filter"]
+        if rw.random() < 0.5:
+            # wider operator coverage (where/mask, loc, nlargest, accessors, melt, combine_first, ...)
+            fams += rw.sample(list(W.EXTENDED_FAMILIES), rw.randint(2, len(W.EXTENDED_FAMILIES)))
         refw = reference_world()
         suspicious = []
 
@@ -215,6 +218,8 @@ def _regenerate_check(spec, ses):
     rw.shuffle(fams)
     fams = [f for f in fams[: rw.randint(8, len(fams))] if f != "cut"]
     fams += ["project", "assign", "filter", "dedup", "project", "assign", "rename", "merge", "merge_filter", "merge_filter"]
+    if rw.random() < 0.5:
+        fams += rw.sample(list(W.EXTENDED_FAMILIES), rw.randint(2, len(W.EXTENDED_FAMILIES)))
     refw = reference_world()
     found = []
 
